@@ -1,3 +1,3 @@
 SPECIFICATION Spec
-INVARIANT AcceptIffAuthentic Unforgeable ModificationRejected TotalAccessors UncheckedStillValidates Emit
+INVARIANT AcceptIffAuthentic Unforgeable RelayBoundToKey FullPacketIsNoRelayPayload ModificationRejected TotalAccessors UncheckedStillValidates Emit
 CHECK_DEADLOCK FALSE
